@@ -7,11 +7,7 @@
 //! exit 1: `VIOLATION property=<id> replay=<path>` printed
 //! exit 2: infrastructure problem
 
-mod c12;
-mod c13;
-mod c14;
-mod c19;
-mod util;
+use verif_rt::{c12, c13, c14, c19};
 
 use verif_core::common::Args;
 
